@@ -194,6 +194,24 @@ def r4(ctx):
                sig="%s: id and Feature results %s" % (f.name, "agree" if outs["an id"] == outs["a Feature"] else "differ: %s vs %s" % (outs["an id"], outs["a Feature"])), nontrivial=False)
 
 
+def switch_restored(ctx, rule="R2"):
+    """bed12 evaluated for both initial settings of always_return_list and a present / missing name field: whatever it sets
+    meanwhile, the switch ends as it was found."""
+    from ..absint import Opaque
+    b = require_func(ctx, "interface.FeatureDB.bed12")
+    fp = [p for p in b.params if p != "self"][0]
+    blocks = {("exon",): [("e1", 10, 20), ("e2", 50, 100)], ("CDS",): [("c1", 15, 20), ("c2", 50, 80)], "exon": [("e1", 10, 20), ("e2", 50, 100)]}
+    for initial in (False, True):
+        for nf in ("ID", "absent"):
+            summ, G_ = _db(blocks, None, None)
+            tr = _traces(ctx, b, {fp: _gene(), "name_field": nf}, self_obj=Opaque("self", "obj"), summaries=summ, overrides={("constants", "always_return_list"): initial})
+            ctx.require(len(tr) == 1, "bed12 forks on concrete input (%d paths)" % len(tr))
+            sw = [e for e in tr[0].events if e[0] == "setglobal" and e[2] == "always_return_list"]
+            ok = (not sw) or sw[-1][3] is initial
+            ctx.ob(rule, ok, "bed12 leaves the always_return_list switch as it found it (also when the name field is missing)", func=b,
+                   sig="switch %s before bed12(name_field=%s): %s" % (initial, nf, "restored" if ok else "left at %r" % (sw[-1][3],)), nontrivial=False)
+
+
 def check(ctx):
     ctx.explanation = (
         "__len__, the stop/chrom aliases, Feature.sequence, FeatureDB.bed12 and convert.to_bed12 are evaluated abstractly (no execution) on "
